@@ -15,8 +15,14 @@
       two-argument "base" call) to either the exception class it raised or (values, unit).  The call
       counter makes stateful converters (e.g. one that fails on its k-th call) expressible.
     * cell values are opaque tokens (`Val`): no arithmetic is modelled.
-    * pandas `df[name] = ndarray`: positional assignment, the index is untouched, raises ValueError when
-      the length differs from the number of rows (as documented by pandas; sampled by the harness).
+    * pandas `df[name] = ndarray`: the assignment primitive is the parameter `assign : Assign` (row labels
+      of the frame, the column, the length-checked new values ↦ the column afterwards).  What pandas 3
+      does for `df[name] = pd.Series(values).to_numpy()` is `positionalAssign` (values taken position by
+      position, the index untouched); the property theorems assume the law `Positional assign`; the
+      harness samples it on permuted / duplicate / string indexes.  A label-aligned primitive
+      (`Series.update`, the code before the fix) is expressible as another `Assign` and breaks the
+      theorems (example in Props/C06.lean).  ValueError when the length differs from the number of
+      rows (as documented by pandas; sampled by the harness).
       Not modelled: on a frame without rows pandas accepts values of any length and re-indexes the
       frame — only reachable with a converter that breaks its contract (one value per row).
     * the callable dispatcher form is a function `Str → Option Str` (assumed not to raise).
@@ -57,6 +63,17 @@ inductive Err
 /-- `converter(values, from_unit[, to_unit])` at call number `k` -/
 abbrev Conv := Nat → List Val → Str → Option Str → Except Str (List Val × Str)
 
+/-- the column-assignment primitive behind the `Column.values` setter: `assign index column values` is the
+    column after `df[name] = values` (only called with `values.length = index.length`) -/
+abbrev Assign := List Val → Col → List Val → Col
+
+/-- what `self._df[self._name] = pd.Series(values).to_numpy()` does: by position, labels play no part -/
+def positionalAssign : Assign := fun _ c vs => { c with vals := vs }
+
+/-- the law the property theorems assume of the assignment primitive -/
+def Positional (assign : Assign) : Prop :=
+  ∀ idx c vs, vs.length = idx.length → assign idx c vs = { c with vals := vs }
+
 /-- the `to` argument of `Table.convert_units` -/
 inductive To
   | str (s : Str)                        -- a `str` ("origin", "base", or — being a Sequence — its characters)
@@ -71,11 +88,12 @@ def baseTok : Str := "__base__".toList
 /-- `unit in INCONVERTIBLE_UNIT_INDICATORS` -/
 def isSpecial (u : Str) : Bool := Gen.inconvertibleUnits.contains u
 
-/-- `Column.convert_units(to, converter)` on a column of a frame with `nrows` rows, `k` converter calls
+/-- `Column.convert_units(to, converter)` on a column of a frame with row labels `idx`, `k` converter calls
     made so far.  Order of the tests as in the source: `None`, same unit, inconvertible guard,
     `__origin__`, `__base__` (unit := what the converter reports), explicit unit (unit := requested).
     Values are assigned before the unit; a failing assignment leaves the column as it was. -/
-def convertCol (conv : Conv) (k nrows : Nat) (c : Col) : Option Str → Except Err (Col × Nat)
+def convertCol (assign : Assign) (conv : Conv) (k : Nat) (idx : List Val) (c : Col) :
+    Option Str → Except Err (Col × Nat)
   | none => .ok (c, k)
   | some u =>
     if u = c.unit then .ok (c, k)
@@ -85,14 +103,14 @@ def convertCol (conv : Conv) (k nrows : Nat) (c : Col) : Option Str → Except E
       match conv k c.vals c.unit none with
       | .error e => .error (.conv e)
       | .ok (vs, u') =>
-        if vs.length ≠ nrows then .error .valueError
-        else .ok ({ c with vals := vs, unit := u' }, k + 1)
+        if vs.length ≠ idx.length then .error .valueError
+        else .ok ({ assign idx c vs with unit := u' }, k + 1)
     else
       match conv k c.vals c.unit (some u) with
       | .error e => .error (.conv e)
       | .ok (vs, _) =>
-        if vs.length ≠ nrows then .error .valueError
-        else .ok ({ c with vals := vs, unit := u }, k + 1)
+        if vs.length ≠ idx.length then .error .valueError
+        else .ok ({ assign idx c vs with unit := u }, k + 1)
 
 /-- write column `j` of frame `r` -/
 def write (w : World) (r j : Nat) (c : Col) : World :=
@@ -101,26 +119,26 @@ def write (w : World) (r j : Nat) (c : Col) : World :=
   | some t => w.set r { t with cols := t.cols.set j c }
 
 /-- read column `j` of frame `r` -/
-def readCol (w : World) (r j : Nat) : Option (Nat × Col) :=
+def readCol (w : World) (r j : Nat) : Option (List Val × Col) :=
   match w[r]? with
   | none => none
   | some t => match t.cols[j]? with
     | none => none
-    | some c => some (t.index.length, c)
+    | some c => some (t.index, c)
 
 /-- the `for col in new_table.column_proxies:` loops: visit the column positions `js` of frame `r` in
     order; `tgt j col` is the target unit the dispatcher form gives column `j` (`none`: skip);
     the first exception ends the loop (earlier writes stay in frame `r`). -/
-def loop (conv : Conv) (tgt : Nat → Col → Option Str) (r : Nat) :
+def loop (assign : Assign) (conv : Conv) (tgt : Nat → Col → Option Str) (r : Nat) :
     World → Nat → List Nat → World × Except Err Unit
   | w, _, [] => (w, .ok ())
   | w, k, j :: js =>
     match readCol w r j with
-    | none => loop conv tgt r w k js
-    | some (nrows, c) =>
-      match convertCol conv k nrows c (tgt j c) with
+    | none => loop assign conv tgt r w k js
+    | some (idx, c) =>
+      match convertCol assign conv k idx c (tgt j c) with
       | .error e => (w, .error e)
-      | .ok (c', k') => loop conv tgt r (write w r j c') k' js
+      | .ok (c', k') => loop assign conv tgt r (write w r j c') k' js
 
 /-- `dict.get(name)` (then `to[name]`, the same value) -/
 def dictGet (m : List (Str × Option Str)) (name : Str) : Option Str :=
@@ -146,20 +164,21 @@ def form : To → Form
   | .other => .typeError
 
 /-- run one dispatcher loop over all `ncols` columns of the new frame `r`; `return new_table` -/
-def runLoop (conv : Conv) (tgt : Nat → Col → Option Str) (w1 : World) (r ncols : Nat) :
+def runLoop (assign : Assign) (conv : Conv) (tgt : Nat → Col → Option Str) (w1 : World) (r ncols : Nat) :
     World × Except Err Nat :=
-  match loop conv tgt r w1 0 (List.range ncols) with
+  match loop assign conv tgt r w1 0 (List.range ncols) with
   | (w2, .ok _) => (w2, .ok r)
   | (w2, .error e) => (w2, .error e)
 
 /-- the `if to == "origin" … elif … else raise TypeError` chain; `ncols = len(self.column_proxies)` -/
-def dispatch (conv : Conv) (to : To) (w1 : World) (r ncols : Nat) : World × Except Err Nat :=
+def dispatch (assign : Assign) (conv : Conv) (to : To) (w1 : World) (r ncols : Nat) :
+    World × Except Err Nat :=
   match form to with
   | .typeError => (w1, .error .typeError)
   | .positional xs =>
     if xs.length ≠ ncols then (w1, .error .valueError)
-    else runLoop conv (fun j _ => (xs[j]?).join) w1 r ncols
-  | .each tgt => runLoop conv tgt w1 r ncols
+    else runLoop assign conv (fun j _ => (xs[j]?).join) w1 r ncols
+  | .each tgt => runLoop assign conv tgt w1 r ncols
 
 /-- `converter` if given, else `pdtable.units.default_converter` -/
 def choose (converter dflt : Option Conv) : Option Conv :=
@@ -170,10 +189,10 @@ def choose (converter dflt : Option Conv) : Option Conv :=
 /-- `Table.convert_units(self, to, converter)` with `pdtable.units.default_converter = dflt`.
     Returns the heap afterwards and either the exception or the reference of the new table.
     `new_table = Table(self.df.copy())` allocates frame number `w.length`. -/
-def convertUnits (w : World) (self : Nat) (h : self < w.length) (to : To)
+def convertUnits (assign : Assign) (w : World) (self : Nat) (h : self < w.length) (to : To)
     (converter dflt : Option Conv) : World × Except Err Nat :=
   match choose converter dflt with
   | none => (w, .error .missingConverter)
-  | some conv => dispatch conv to (w ++ [w[self]]) w.length w[self].cols.length
+  | some conv => dispatch assign conv to (w ++ [w[self]]) w.length w[self].cols.length
 
 end Pdt.Convert
